@@ -124,6 +124,14 @@ reg("C05", "libFuzzer (ASan+UBSan) on the reader API + Hypothesis structure-awar
     "Fuzz campaigns are approximately reproducible; artifacts are re-run stand-alone before they count; work proportional to sizes an image "
     "merely claims is bounded inside the harness and skipped in the CLI layer.", "DESIGN.md 4/C05")
 
+reg("C07", "libFuzzer (ASan+UBSan) on tar iterator/fstree and the pack/sort/xattr parsers + Hypothesis and exhaustive CLI cases", "exploration",
+    "coverage-guided fuzzing with in-target oracles + generated/enumerated malformed inputs through the CLI with a fail-stop/valid-image oracle",
+    "src/fz_packer.c feeds fuzzed bytes through tar_open_stream (codec detection), the process_tarball loop, fstree and hard-link post-processing, and "
+    "through the pack file, sort file and xattr map file parsers; the CLI layer runs tar2sqfs/gensquashfs (ASan) on truncated and damaged archives of "
+    "every dialect and codec, on every hard-link graph over three names (and sampled over four) in tar and pack-file form, and on mutated text files. "
+    "Terminates; no sanitizer report; exit 0 => image satisfies the C03 invariants and the predicted link groups; exit 1 => diagnostic, no output file.",
+    "What a malformed sparse map delivers is unspecified and not judged; hang detection is a 30 s limit.", "DESIGN.md 4/C07")
+
 NOT_YET = {}
 
 ALL = ["C%02d" % i for i in range(1, 20)]
